@@ -18,6 +18,7 @@
 //! 11 OnionV3Address::try_from   12 PaymentProof JSON   13 EncryptedBody JSON + decrypt
 //! 14 Slatepacker::get_slate     15 deser_slatepack(.., true) with the wallet key
 //! 16 helpers on raw JSON values (text layer included)   17 StoredProofInfo JSON
+//! 18 api::ECDHPubkey JSON   19 api::Token JSON   20 api::Ed25519SecretKey JSON
 //!
 //! result: [0, value..] | [1] error | [2] panic
 #[path = "codec_common/mod.rs"]
@@ -386,6 +387,26 @@ fn call(c: &Case, pools: &Pools) -> Result<Result<Vec<u64>, String>, String> {
 		17 => guarded(|| {
 			let s = String::from_utf8_lossy(bs).to_string();
 			serde_json::from_str::<StoredProofInfo>(&s)
+				.map(|_| vec![])
+				.map_err(|e| e.to_string())
+		}),
+		// JSON-RPC parameter types of the owner listener: ECDH public key of init_secure_api,
+		// the keychain-mask token, an ed25519 secret key
+		18 => guarded(|| {
+			let s = String::from_utf8_lossy(bs).to_string();
+			serde_json::from_str::<vharness::api::ECDHPubkey>(&s)
+				.map(|_| vec![])
+				.map_err(|e| e.to_string())
+		}),
+		19 => guarded(|| {
+			let s = String::from_utf8_lossy(bs).to_string();
+			serde_json::from_str::<vharness::api::Token>(&s)
+				.map(|_| vec![])
+				.map_err(|e| e.to_string())
+		}),
+		20 => guarded(|| {
+			let s = String::from_utf8_lossy(bs).to_string();
+			serde_json::from_str::<vharness::api::Ed25519SecretKey>(&s)
 				.map(|_| vec![])
 				.map_err(|e| e.to_string())
 		}),
@@ -1041,6 +1062,14 @@ fn gen_cases(p: &mut Prng, pools: &Pools, scale: u64) -> Vec<Case> {
 		v.resize((*n).max(15), b'1');
 		push(5, 0, v, "bounds");
 	}
+	// the base58 layer (bs58 0.3.1) is quadratic in the payload length: one armored input far
+	// below slatepack::max_size (1.28 MB on mainnet) already takes seconds (recorded finding C09-F1)
+	{
+		let mut v = b"BEGINSLATEPACK. ".to_vec();
+		v.extend(std::iter::repeat(b'z').take(120_000));
+		v.extend(b". ENDSLATEPACK.");
+		push(15, 1, v, "quadratic");
+	}
 	// post-decryption plaintext boundaries (lengths 0..8 around the 4-byte length prefix)
 	for n in 0..8usize {
 		push(6, 0, vec![0u8; n], "bounds");
@@ -1234,6 +1263,25 @@ fn gen_cases(p: &mut Prng, pools: &Pools, scale: u64) -> Vec<Case> {
 		mutate_bytes(p, os.as_bytes(), 12, &mut ms);
 		for m in ms {
 			push(11, 0, m, "mutation");
+		}
+	}
+	// owner-listener parameter types: hex strings of lengths {0, n-1, n, n+1} and text junk
+	for (d, n) in [(18u64, 33usize), (19, 32), (20, 32)].iter() {
+		for l in [0usize, 1, n - 1, *n, n + 1, 2 * n, 65].iter() {
+			for _ in 0..(2 * s) {
+				let mut b = p.bytes(*l);
+				if *d == 18 && *l >= 33 && p.coin() {
+					b[..33].copy_from_slice(&pk_bytes(p.pick(&pools.pks)));
+				}
+				push(*d, 0, format!("\"{}\"", hex(&b)).into_bytes(), "field-lengths");
+			}
+		}
+		for t in ["null", "\"\"", "\"zz\"", "\"abc\"", "\"a\u{e9}b\"", "5", "[]", "\"0x\"", "{}"].iter() {
+			push(*d, 0, t.as_bytes().to_vec(), "text-layer");
+		}
+		for _ in 0..(10 * s) {
+			let n = rand_len(p).min(80);
+			push(*d, 0, p.bytes(n), "random");
 		}
 	}
 	// payment proof JSON / stored proof JSON / EncryptedBody
